@@ -290,7 +290,8 @@ Definition val_comp (r : res comp) : val :=
    caller's object.  Consequences modelled here (and compared by the tie): after the call, an object carries the
    local_name of the LAST port it was handed to; every interface that shares it shows that value; the caller's
    own objects are modified -- also by a call that then raises IndexError on a too-short label list. *)
-Definition stamps_caller_labels : bool := true.        (* false once labels are copied before stamping *)
+(* Whether the code does that is read from the source by the translator: Gen.Catalog.stamps_caller_labels (true = the
+   caller's object is attached as is; false = a copy is attached, fix 356ad86).  The model follows either tree. *)
 
 Definition set_local (i : iface) (l : localv) : iface :=
   {| if_name := if_name i; if_kind := if_kind i; if_id := if_id i; if_tag := if_tag i; if_bdf := if_bdf i;
@@ -333,15 +334,16 @@ Definition alias_comp (pnames : list str) (labs : list lab) (c : comp) : comp :=
              end |}.
 
 (* the component as the caller sees it when the call returns *)
-Definition gen_component_seen (cat : list comp_entry) (name : str) (s : sel) (nsid : option str)
+Definition gen_component_seen_with (stamps : bool) (cat : list comp_entry) (name : str) (s : sel) (nsid : option str)
            (ids : option (list str)) (labs : option (list lab)) (parent : option str) : res comp :=
   match gen_component cat name s nsid ids labs parent, labs, sel_ports cat s with
-  | Ok c, Some l, Some ports => if stamps_caller_labels then Ok (alias_comp (map fst ports) l c) else Ok c
+  | Ok c, Some l, Some ports => if stamps then Ok (alias_comp (map fst ports) l c) else Ok c
   | r, _, _ => r
   end.
+Definition gen_component_seen := gen_component_seen_with stamps_caller_labels.
 
 (* local_name of each label object the caller handed over, after the call (None = untouched) *)
-Definition caller_labels_after (cat : list comp_entry) (name : str) (s : sel) (nsid : option str)
+Definition caller_labels_after_with (stamps : bool) (cat : list comp_entry) (name : str) (s : sel) (nsid : option str)
            (ids : option (list str)) (labs : option (list lab)) (parent : option str) : list (option localv) :=
   match labs, sel_ports cat s with
   | Some l, Some ports =>
@@ -349,12 +351,14 @@ Definition caller_labels_after (cat : list comp_entry) (name : str) (s : sel) (n
                      | Ok _ => true
                      | Err c => str_eqb c (S"IndexError")
                      end in
-      map (fun lb => if stamps_caller_labels && stamped
+      map (fun lb => if stamps && stamped
                      then option_map (local_of (lab_bdf lb)) (owner_port (map fst ports) l (lab_tag lb))
                      else None) l
   | Some l, None => map (fun _ => None) l
   | None, _ => []
   end.
+
+Definition caller_labels_after := caller_labels_after_with stamps_caller_labels.
 
 Definition comp_case : Type :=
   (str * sel * option str * option (list str) * option (list lab) * option str)%type.
